@@ -122,7 +122,9 @@ func (d *UpGrid) versions() []int64 {
 
 func (d *UpGrid) Cases(tier string) []GridCase {
 	var out []GridCase
-	flags := []string{"notary=absent", "notary=false", "notary=true/ballots=absent", "notary=true/ballots=empty", "notary=true/ballots=stale", "notary=true/ballots=fresh", "notary=false/ballots=fresh"}
+	flags := []string{"notary=absent", "notary=false", "notary=true/ballots=absent", "notary=true/ballots=empty", "notary=true/ballots=stale", "notary=true/ballots=fresh", "notary=false/ballots=fresh",
+		// several ballots, the live one not last / not first (votes refresh a ballot in place, so list order is not age order)
+		"notary=true/ballots=fresh-then-stale", "notary=true/ballots=stale-fresh-stale"}
 	data := map[string][]string{
 		"balance":   {"unprefixed", "prefixed", "mixed", "empty", "unprefixed-every-first-byte"},
 		"container": {"unprefixed", "prefixed", "mixed", "unprefixed-every-first-byte"},
@@ -203,6 +205,15 @@ func (d *UpGrid) Eval(x *Exec, root *Node, gc GridCase) GridResult {
 			put([]byte("ballots"), ser(stackitem.NewArray(nil)))
 		case strings.Contains(c.Variant, "ballots=stale"):
 			put([]byte("ballots"), mkBallots(0))
+		case strings.Contains(c.Variant, "ballots=fresh-then-stale"), strings.Contains(c.Variant, "ballots=stale-fresh-stale"):
+			one := func(id string, height int64) stackitem.Item {
+				return stackitem.NewStruct([]stackitem.Item{stackitem.Make([]byte(id)), stackitem.Make([]any{[]byte{2, 3}}), stackitem.Make(height)})
+			}
+			l := []stackitem.Item{one("idA", int64(root.H)-1), one("idB", 0)}
+			if strings.Contains(c.Variant, "stale-fresh-stale") {
+				l = []stackitem.Item{one("idC", 0), one("idA", int64(root.H)-1), one("idB", 0)}
+			}
+			put([]byte("ballots"), ser(stackitem.NewArray(l)))
 		case fresh:
 			put([]byte("ballots"), mkBallots(int64(root.H)-1))
 		}
